@@ -303,6 +303,11 @@ def _iterative(col, rule, sx: SCtx, q, whiles, adds, e_nid, e_call, graph_p, src
     if len(init_defs) == 1:
         t0 = sym.of(init_defs[0].value, init_defs[0].nid)
         init_ok = t0[:1] == ("list",) and len(t0[1]) == 1 and is_frame(t0[1][0], source)
+        if not init_ok and t0[:1] in (("list",), ("acc",)) and not (t0[:1] == ("list",) and t0[1]):
+            # created empty, the source frame pushed before the loop starts (unconditionally, once)
+            first = [(nid, c) for nid, c in _pushes(w, todo) if cfg.dominates(nid, wh.id) and not cfg.in_loop(nid) and not sx.conds(nid)]
+            init_ok = len(first) == 1 and bool(first[0][1].args) and is_frame(sym.of(first[0][1].args[0], first[0][0]), source) \
+                and not [1 for nid, c in _pushes(w, todo) if cfg.path_avoiding(nid, wh.id, []) and not cfg.in_loop(nid) and nid != first[0][0]]
     col.add(rule, f"{q}#initial-frame", init_ok, w.loc(init_defs[0].nid) if init_defs else w.loc(w.fn),
             "the work stack starts with one frame (source, iterator over the source's successors)",
             A.src(init_defs[0].value) if init_defs else "no unique initialisation")
@@ -312,7 +317,8 @@ def _iterative(col, rule, sx: SCtx, q, whiles, adds, e_nid, e_call, graph_p, src
             "the source vertex is marked visited before the traversal loop starts",
             f"visited.add sites: {[(sx.loc(e), S.show(m['x'])) for e, m in add_evs]}")
     # ---- pushes
-    pushes = _pushes(w, todo)
+    wh_body = [n.id for n in cfg.nodes.values() if n.kind == "T" and n.of == wh.id]
+    pushes = [(nid, c) for nid, c in _pushes(w, todo) if any(cfg.dominates(b, nid) for b in wh_body)]
     if not pushes:
         col.add(rule, f"{q}#pushed-frame", False, w.loc(w.fn), "successors are pushed on the work stack", "no push found")
     unvisited = ("cmp", "not in", nb, vis)
@@ -320,7 +326,11 @@ def _iterative(col, rule, sx: SCtx, q, whiles, adds, e_nid, e_call, graph_p, src
         t = sym.of(c.args[0], nid) if c.args else ("opaque", "?")
         col.add(rule, f"{q}#pushed-frame", is_frame(t, nb), w.loc(nid),
                 "a pushed frame pairs the successor with a fresh iterator over *its* successors in the given graph", S.show(t))
-        col.add(rule, f"{q}#descend-only-unvisited", sx.under(nid, unvisited), w.loc(nid),
+        # the vertex pushed was found unvisited: at the push, or where the value pushed was picked
+        vexpr = c.args[0].elts[0] if (c.args and isinstance(c.args[0], ast.Tuple) and c.args[0].elts) else None
+        prov = sx.guarded_values(vexpr, nid) if vexpr is not None else []
+        picked_unvisited = bool(prov) and all(tv == nb and unvisited in cs for tv, cs in prov)
+        col.add(rule, f"{q}#descend-only-unvisited", sx.under(nid, unvisited) or picked_unvisited, w.loc(nid),
                 "descent into a successor happens only if it is not yet visited",
                 f"conditions: {[S.show(x) for x in sx.conds(nid)]}")
         marks = [ev.nid for ev, m in add_evs if m["x"] == nb]
